@@ -41,6 +41,9 @@ void h_ls_bin(void)
 {
    unsigned bits = nondet_uint(), fl = nondet_uint(), fh = nondet_uint(), fs;
    SETUP_PAIR
+#ifdef VERIF_BITS
+   __CPROVER_assume(bits == VERIF_BITS);
+#endif
    __CPROVER_assume(1 <= bits && bits <= 16);
    fs = ec_decode_bin(&D, bits);
    __CPROVER_assert(fs < (1U << bits), "ec_decode_bin returns a value below 2^bits");
